@@ -20,6 +20,12 @@ CLAIMED = {
                 ref='DESIGN.md section 6 C04'),
     'C12': dict(text='The real parsers over juxtaposition templates (left factor: number, group, floor group, call, factorial; every possible following token; up to 3 (thorough 4) more tokens; five syntactic contexts): products are built exactly after the trigger tokens, R is parsed above the multiplicative level, everything else is rejected.',
                 ref='DESIGN.md section 6 C12'),
+    'C13': dict(text='(W, metamorphic) the public functions from MIR on templates with symbolic digits, with and without one arbitrary White_Space character inserted (also inside names and numbers): z3 shows for every feasible pair of paths the same value bit for bit or Err in both; (T) every alias gives the token of its synonym; (P) bracket notations, mod/pow as functions, superscripts, prefix + and redundant brackets build the reference tree of their named form.',
+                ref='DESIGN.md section 6 C13'),
+    'C15': dict(text='Pairwise over the real evaluators: the same integer node in eval_i64 and eval_number on the same arbitrary i64 operands (Ok(v) implies Integer(v)); every Float-operand node of the shared f64 grammar in eval_number against the f64 reference semantics that C05/C10 tie eval_f64 to, under the stated restriction. The 1e-9 agreements with eval_complex / eval_decimal are outside.',
+                ref='DESIGN.md section 6 C15'),
+    'C20': dict(text='For the listed parent nodes, child positions and inner nodes of eval_f64, eval_i64, eval_number, eval_complex: three explorations of ast::eval from MIR related by substitution - eval(Outer(..Inner(x)..)) equals eval(Outer(..Number(v)..)) with v := value of Inner(x), Err when Inner is Err - decided by z3 for every feasible combination of paths; plus bracketed groups in operand / argument position at the parser level.',
+                ref='DESIGN.md section 6 C20'),
     'C14': dict(text='The public eval_* functions from the MIR of mod.rs on `@`, `(@)`, `+@`, `((@))` with a fully symbolic placeholder return exactly the placeholder; in the parser every `@` leaf of every accepted template stream is the placeholder term itself and `@` never joins an implicit product.',
                 ref='DESIGN.md section 6 C14'),
     'C05': dict(text='Every arithmetic node of eval_f64 (one node and two nested nodes, leaves = arbitrary doubles) is shown by z3 to apply the IEEE/libm operation of the same meaning to its operands in order and never to return Err; bounded by tree shape, not by operand values.',
